@@ -13,7 +13,7 @@ from . import refasm
 from . import c02, c05, c06
 
 ID = 'C17'
-BUDGET_S = {'quick': 170, 'thorough': 1800}
+BUDGET_S = {'quick': 170, 'thorough': 3600}
 SHAPE_WALL_S = {'quick': 100, 'thorough': 600}
 FAMILY = ('PIPE: (a) single-file programs (labels, instructions, data, fills, .align, #mute, #if blocks, forward/backward '
           'references) split at line boundaries into <= 3 files (nested includes, an extra include directory); the image of '
@@ -96,7 +96,7 @@ class RejectInclude(LayoutShape):
 def shapes(tier, seed):
     S = []
     rnd = random.Random(1700 + seed)
-    n = 40 if tier == 'quick' else 800
+    n = 40 if tier == 'quick' else 2500
     for i in range(n):
         prog, syms = c02.random_program(rnd, rnd.randint(6, 12), rich_branches=False)
         prog = [st for st in prog if st[0] != 'org']
